@@ -1,5 +1,5 @@
 CONSTANTS
-  Sigma = {97, 98, 42, 63, 92}
+  Sigma = {97, 98, 42, 92}
   NSigma = {97, 98}
   MaxParas = 3
   MaxPats = 2
